@@ -29,6 +29,8 @@ for d in sorted(glob.glob('/verif/seeded/*/')):
         fp=str(v['new_fingerprints'][0]).replace('fingerprint: ','')
     if v.get('caught'):
         cell=fp[:150]
+    elif v.get('note'):
+        cell=v['note']
     elif not v.get('demo_fails_with_change'):
         cell='not a violation on the current tree any more (the demonstration passes with the change: neutralised by a later repair)'
     elif n in cross:
